@@ -600,6 +600,15 @@ func (m *Manager) acquireTasks(envId uid.ID, taskDescriptors Descriptors) (err e
 			log.WithField("partition", envId).
 				WithField("level", infologger.IL_Devel).
 				Errorf("Deployment failed %d/%d attempts. Check messages in IL to figure out why. Retrying...", attemptCount+1, MAX_ATTEMPTS_PER_DEPLOY_REQUEST)
+			if attemptCount < MAX_ATTEMPTS_PER_DEPLOY_REQUEST-1 {
+				// The next attempt starts from scratch and forgets the tasks launched in this one:
+				// we hand them to the roster, unowned, so that they can be cleaned up instead of
+				// running on unknown to the core.
+				for taskPtr := range deployedTasks {
+					taskPtr.SetParent(nil)
+					m.roster.append(taskPtr)
+				}
+			}
 			time.Sleep(time.Second * SLEEP_LENGTH_BETWEEN_PER_DEPLOY_REQUESTS)
 		}
 	}
